@@ -113,6 +113,10 @@ func (c *Ctx) Eval() {
 	c.mu.Unlock()
 }
 
+// Tick tells the watchdog that the case is making progress (for cases that count their
+// executions in one EvalN at the end).
+func (c *Ctx) Tick() { c.progress.Add(1) }
+
 // EvalN counts n executions.
 func (c *Ctx) EvalN(n int64) {
 	c.progress.Add(1)
